@@ -31,6 +31,9 @@ enum PageFault {
     /// first attempt answered UNPREPARED (the coordinator for this page does not know the
     /// statement: eviction, restart, or a switch to a node that never saw it)
     Unprepared,
+    /// first attempt: the coordinator goes down (all its connections reset, listener closed) without
+    /// answering, and comes back 150 ms later
+    NodeDown,
 }
 
 #[derive(Clone, Debug)]
@@ -65,6 +68,7 @@ struct QState {
 struct Pager {
     scripts: Mutex<HashMap<u64, Arc<Script>>>,
     state: Mutex<HashMap<u64, QState>>,
+    cluster: Mutex<Option<MockCluster>>,
 }
 
 const PAGED_PREFIX: &str = "SELECT n FROM ks.paged WHERE q = ";
@@ -150,6 +154,17 @@ impl Handler for Pager {
             PageFault::NonRetriedError => {
                 drop(st);
                 rq.error(ErrorBody::simple(errcode::INVALID, "scripted non-retried failure"));
+            }
+            PageFault::NodeDown if attempt == 0 => {
+                drop(st);
+                if let Some(c) = self.cluster.lock().unwrap().clone() {
+                    let idx = rq.node.idx;
+                    c.stop_node(idx, CloseHow::Rst);
+                    tokio::spawn(async move {
+                        tokio::time::sleep(Duration::from_millis(150)).await;
+                        c.start_node(idx).await;
+                    });
+                }
             }
             PageFault::Unprepared if attempt == 0 && matches!(&*rq.request, Request::Execute { .. }) => {
                 drop(st);
@@ -240,6 +255,7 @@ fn gen_script(rng: &mut Rng, qid: u64, exhaustive_fault: Option<(usize, PageFaul
                     2 => PageFault::CutMidFrame,
                     3 => PageFault::Delay,
                     4 => PageFault::Unprepared,
+                    5 if rng.chance(1, 2) => PageFault::NodeDown,
                     _ => PageFault::None,
                 };
             }
@@ -279,7 +295,7 @@ struct ScriptOut {
 }
 
 async fn run_script(s: Arc<Script>) -> ScriptOut {
-    let handler = Arc::new(Pager { scripts: Mutex::new(HashMap::new()), state: Mutex::new(HashMap::new()) });
+    let handler = Arc::new(Pager { scripts: Mutex::new(HashMap::new()), state: Mutex::new(HashMap::new()), cluster: Mutex::new(None) });
     handler.scripts.lock().unwrap().insert(s.qid, s.clone());
     let spec = ClusterSpec {
         nodes: vec![NodeSpec::simple("dc1", "r1", vec![-100]), NodeSpec::simple("dc1", "r1", vec![0]), NodeSpec::simple("dc1", "r2", vec![100])],
@@ -287,6 +303,7 @@ async fn run_script(s: Arc<Script>) -> ScriptOut {
         cluster_name: "c07".into(),
     };
     let cluster = MockCluster::start(spec, handler.clone()).await;
+    *handler.cluster.lock().unwrap() = Some(cluster.clone());
     let mut out = ScriptOut { delivered: vec![], error: None, ended: false, dropped: false, requested: vec![], node_violations: vec![], protocol_violations: vec![], build_error: None, hung: false };
     let profile = if s.fallthrough {
         ExecutionProfile::builder().retry_policy(Arc::new(FallthroughRetryPolicy::new())).request_timeout(None).build()
@@ -440,7 +457,7 @@ fn judge(o: &mut Outcome, s: &Script, r: &ScriptOut) {
             o.violation("c07:error-not-after-earlier-pages", format!("the stream failed ({e}) after delivering {} rows, but the pages before the failing page {failing} hold {before} rows", r.delivered.len()), replay.clone());
         }
         // an error without any scripted fault that could explain it
-        if !s.faults.iter().any(|f| matches!(f, PageFault::NonRetriedError | PageFault::CutMidFrame | PageFault::RetryableError)) {
+        if !s.faults.iter().any(|f| matches!(f, PageFault::NonRetriedError | PageFault::CutMidFrame | PageFault::RetryableError | PageFault::NodeDown)) {
             o.violation("c07:error-without-fault", format!("the stream failed ({e}) although no page was scripted to fail"), replay.clone());
         }
     } else if r.dropped {
@@ -493,7 +510,7 @@ pub fn run(ctx: &Ctx) -> Outcome {
     let mut scripts: Vec<Script> = Vec::new();
     let mut qid = 1u64;
     // fault enumeration: every fault kind at every page index of scripts of up to 6 pages
-    for f in [PageFault::RetryableError, PageFault::NonRetriedError, PageFault::CutMidFrame, PageFault::Delay, PageFault::Unprepared] {
+    for f in [PageFault::RetryableError, PageFault::NonRetriedError, PageFault::CutMidFrame, PageFault::Delay, PageFault::Unprepared, PageFault::NodeDown] {
         for i in 0..6 {
             for _ in 0..(if ctx.quick() { 2 } else { 12 }) {
                 scripts.push(gen_script(&mut rng, qid, Some((i, f))));
@@ -515,6 +532,7 @@ pub fn run(ctx: &Ctx) -> Outcome {
             "CutMidFrame" => PageFault::CutMidFrame,
             "Delay" => PageFault::Delay,
             "Unprepared" => PageFault::Unprepared,
+            "NodeDown" => PageFault::NodeDown,
             _ => PageFault::None,
         };
         let s = Script {
@@ -570,6 +588,7 @@ pub fn run(ctx: &Ctx) -> Outcome {
         "fault:CutMidFrame",
         "fault:Delay",
         "fault:Unprepared",
+        "fault:NodeDown",
         "pager:execute_iter",
         "pager:query_iter",
         "pager:control-connection",
